@@ -11,6 +11,7 @@ CONSTANTS
   EofWithData = TRUE
   ShapesA <- LocalShapes
   ShapesB <- AllShapes
+  DevDrainDeadline = FALSE
   DevCloseWriterFallback = FALSE
   Emit = FALSE
   Classes = @@CLASSES@@
@@ -27,10 +28,12 @@ CONSTANTS
   DevSpin = @@DEVSPIN@@
   DevNoUnblock = @@DEVNOUNBLOCK@@
   DevAliasFlush = @@ALIAS@@
+  SockBatch = @@SOCKB@@
+  DevNoInnerFlush = @@NOINNER@@
   SockQueue = @@SOCKQ@@
   DevQueueRefs = @@QREFS@@
   DevDropOnClose = @@DROP@@
 SPECIFICATION USpec
-INVARIANTS UTypeOK UDatagrams UComplete UCompleteAny UEncoded UFlushed UMutex UBuf
+INVARIANTS UTypeOK UDatagrams UComplete UCompleteAny UEncoded UFlushed UMutex UBuf UBatchFits
 PROPERTIES UDelivMonotone UEventuallyFlushed @@LIVE@@
 CHECK_DEADLOCK FALSE
